@@ -8,10 +8,12 @@ import (
 	"bytes"
 	"encoding/json"
 	"fmt"
+	"runtime"
 	"strings"
 	"sync"
 	"sync/atomic"
 	"unicode/utf8"
+	"unsafe"
 
 	log "github.com/go-spring/log"
 )
@@ -418,8 +420,15 @@ func c09Worker(w *W) {
 			default:
 				l = 7 + r.IntN(40)
 			}
+			if i%400 == 57 {
+				// a few very long strings (escaped form far beyond 64 KiB), written into the reused, by then pre-grown buffer
+				l = 40_000 + r.IntN(120_000)
+			}
 			s := make([]byte, l)
 			mode := r.IntN(4)
+			if l >= 40_000 {
+				mode = r.IntN(3)
+			}
 			for k := range s {
 				switch mode {
 				case 0:
@@ -477,6 +486,51 @@ func c09Worker(w *W) {
 				w.Count("layout_key_value_checks", 1)
 			}
 		}
+	case "addrreuse":
+		// keys that live at the same address one after the other (a caller building keys in a reused buffer; the same
+		// happens to short-lived heap strings after a garbage collection): what was learnt about one key must not be
+		// applied to the next
+		r := w.Rng()
+		plain := []string{"plainkey", "user_id1", "abcdefgh", "k0000001"}
+		for rep := 0; rep < int(w.Spec.N); rep++ {
+			kb := make([]byte, 8)
+			for round := 0; round < 6; round++ {
+				var k string
+				if round%2 == 0 {
+					k = plain[r.IntN(len(plain))]
+				} else {
+					b := []byte(plain[r.IntN(len(plain))])
+					b[r.IntN(8)] = []byte{'"', '\\', '\n', 0x01, 0xff, 0x7f, '\t'}[r.IntN(7)]
+					if r.IntN(2) == 0 {
+						b[r.IntN(8)] = []byte{'"', '\\', '\r', 0x1f, 0xc0}[r.IntN(5)]
+					}
+					k = string(b)
+				}
+				copy(kb, k)
+				key := unsafe.String(&kb[0], len(kb))
+				if why := c09layouts(key); why != "" {
+					report(k, "key built in a reused buffer (round "+fmt.Sprint(round)+"): "+why, "layout")
+				}
+				st.evals++
+			}
+			if rep%50 == 0 {
+				runtime.GC()
+			}
+			// the heap variant: short-lived keys of one length, a collection in between
+			for round := 0; round < 4; round++ {
+				b := []byte(fmt.Sprintf("dyn%05d", r.IntN(99999)))
+				if round%2 == 1 {
+					b[r.IntN(8)] = []byte{'"', '\\', '\n', 0x02}[r.IntN(4)]
+				}
+				if why := c09layouts(string(b)); why != "" {
+					report(string(b), "short-lived key: "+why, "layout")
+				}
+				st.evals++
+			}
+		}
+		w.Count("same_address_keys_checked", int64(w.Spec.N)*10)
+		w.Distinct("addrreuse")
+		w.Sample(map[string]any{"kind": "addrreuse", "what": "8-byte keys written into one reused buffer, alternately plain and containing bytes that need escaping"})
 	case "inject":
 		// plain ASCII strings of length 1..40 with one or two special bytes injected at every position:
 		// a fast path that looks at more than 4 bytes at a time (word-at-a-time scans) is not covered by
@@ -657,6 +711,9 @@ func init() {
 			for i := 0; i < 4; i++ {
 				specs = append(specs, d.NewSpec("inject", fmt.Sprintf("inj-%d", i), i, 4))
 			}
+			ar := d.NewSpec("addrreuse", "addrreuse", 0, 1)
+			ar.N = d.Pick(3000, 60000)
+			specs = append(specs, ar)
 			for i := 0; i < 3; i++ {
 				s := d.NewSpec("conc", fmt.Sprintf("conc-%d", i), i, 3)
 				s.N = d.Pick(4000, 40000)
